@@ -29,6 +29,7 @@ import (
 	"flag"
 	"fmt"
 	"os"
+	"regexp"
 	"sort"
 	"strconv"
 	"strings"
@@ -258,6 +259,93 @@ func replayOne(r *vf.Run, cfg batch.Config, raw json.RawMessage) {
 	}
 }
 
+var reAt = regexp.MustCompile(` at ([^ )]+)\)$`)
+
+// drive is batch.Drive with one difference. On a stream of several messages bio-rd's receiver goroutine
+// may panic on the next header a moment after the FSM closed the connection because of the previous
+// message; under load that moment can fall behind the end of the case, and the batch then reports a
+// process-fatal event that none of the cases in flight reproduces. Such an event is a finding without a
+// witness: it is counted, and it makes the run inconclusive only if its site is not one that this run
+// also attributed to a stream (and so reports with a replayable witness anyway).
+func drive(r *vf.Run, cfg batch.Config, cases []any) {
+	raws := make([]json.RawMessage, len(cases))
+	for i, c := range cases {
+		b, err := json.Marshal(c)
+		if err != nil {
+			panic(err)
+		}
+		raws[i] = b
+	}
+	out := batch.Run(cfg, raws)
+	sets := map[string]map[string]bool{}
+	idx := make([]int, 0, len(out.Results))
+	for i := range out.Results {
+		idx = append(idx, i)
+	}
+	sort.Ints(idx)
+	for _, i := range idx {
+		res := out.Results[i]
+		for _, f := range res.Findings {
+			r.Violate(vf.Violation{Clause: f.Clause, Features: f.Features, Detail: f.Detail, Case: raws[i]})
+		}
+		for k, v := range res.Counts {
+			r.Count(k, v)
+		}
+		for _, k := range res.Nontrivial {
+			r.Nontrivial(k)
+		}
+		for k, vs := range res.Sets {
+			if sets[k] == nil {
+				sets[k] = map[string]bool{}
+			}
+			for _, v := range vs {
+				sets[k][v] = true
+			}
+		}
+		if res.Sample != nil {
+			r.Sample(res.Sample)
+		}
+		if res.Inconcl != "" {
+			r.Inconclusive(fmt.Sprintf("case %d: %s", i, res.Inconcl))
+		}
+	}
+	// The framework keeps the first witness of a signature and replays it. Streams of a single message
+	// delivered in one piece die synchronously and deterministically; with several messages the moment (and
+	// under load even the case a late panic is charged to) depends on the schedule. So the single-message
+	// witnesses are reported first.
+	sites := map[string]bool{}
+	simple := func(i int) bool {
+		var c ccase
+		return json.Unmarshal(raws[i], &c) == nil && c.Gen != "splice" && len(c.Prefix) == 0 && len(c.Chunks) == 0
+	}
+	for pass := 0; pass < 2; pass++ {
+		for _, f := range out.Fatals {
+			if simple(f.Index) != (pass == 0) {
+				continue
+			}
+			sites[f.Where] = true
+			r.Violate(vf.Violation{Clause: f.Kind, Features: vf.F("where", f.Where), Detail: fmt.Sprintf("%s\n%s", f.Panic, f.Log), Case: raws[f.Index]})
+			r.Count("process_fatal_events", 1)
+		}
+	}
+	for _, s := range out.Inconclusive {
+		if m := reAt.FindStringSubmatch(s); m != nil && sites[m[1]] && strings.Contains(s, "crashed") {
+			r.Count("process_fatal_events_without_witness", 1)
+			continue
+		}
+		r.Inconclusive(s)
+	}
+	for k, m := range sets {
+		var l []string
+		for v := range m {
+			l = append(l, v)
+		}
+		sort.Strings(l)
+		r.Set(k, l)
+	}
+	r.Count("child_processes", out.Children)
+}
+
 func main() {
 	if batch.IsChild() {
 		batch.ChildMain(runCase)
@@ -295,7 +383,7 @@ func main() {
 		if _, ok := r.Replaying(); ok {
 			replayOne(r, cfg, cases[0].(json.RawMessage))
 		} else {
-			batch.Drive(r, cfg, cases, nil)
+			drive(r, cfg, cases)
 		}
 		if _, ok := r.Replaying(); !ok {
 			r.Require("streams", int64(r.N(3000, 50000)))
